@@ -13,105 +13,154 @@ import Mathlib.Tactic.Positivity
 
 namespace MiniMcmcVerif.DualAvg
 
-noncomputable instance : TrOps ℝ := ⟨Real.exp, Real.log, Real.sqrt, fun x k => Real.rpow x (-k)⟩
+noncomputable instance : TrOps ℝ := ⟨Real.exp, Real.log, Real.sqrt, fun x k => Real.rpow x (-k), clampOrd⟩
 
-variable (delta gamma kappa : ℝ) (t0 : Nat)
+/-! ### the clamp, for every carrier with a comparison — including ones with NaN-like incomparable elements -/
 
-/-- the transition counter advances by one per transition and the warm-up length of the run is not touched. -/
-theorem adaptStep_counters (st : Adapt ℝ) (a : ℝ) :
-    (adaptStep delta gamma kappa t0 st a).m = st.m + 1 ∧ (adaptStep delta gamma kappa t0 st a).nDiscard = st.nDiscard
-    ∧ (adaptStep delta gamma kappa t0 st a).mu = st.mu := by
-  by_cases h : st.m + 1 ≤ st.nDiscard <;> simp [adaptStep, h]
+section Clamp
+variable {K : Type} [LE K] [DecidableLE K]
 
-/-- **positivity**: the step size and the averaged iterate stay positive (hence, over ℝ, finite and non-zero) after
-    every transition, for every history of acceptance statistics — warm-up or not. -/
-theorem eps_pos_step (st : Adapt ℝ) (a : ℝ) (h : 0 < st.epsBar) :
-    0 < (adaptStep delta gamma kappa t0 st a).eps ∧ 0 < (adaptStep delta gamma kappa t0 st a).epsBar := by
+/-- `clampOrd lo hi e` lies in `[lo, hi]` for **every** `e` (also one that compares with nothing, like a NaN), as soon as
+    the two bounds themselves are ordinary: `lo ≤ lo`, `lo ≤ hi`, `hi ≤ hi`. No order axioms are used. -/
+theorem clampOrd_mem (lo hi e : K) (hll : lo ≤ lo) (hlh : lo ≤ hi) (hhh : hi ≤ hi) :
+    lo ≤ clampOrd lo hi e ∧ clampOrd lo hi e ≤ hi := by
+  unfold clampOrd
+  by_cases h1 : lo ≤ e
+  · by_cases h2 : e ≤ hi <;> simp [h1, h2, hlh, hhh]
+  · simp [h1, hlh, hll]
+
+/-- inside the range the clamp does nothing. -/
+theorem clampOrd_of_mem (lo hi e : K) (h1 : lo ≤ e) (h2 : e ≤ hi) : clampOrd lo hi e = e := by
+  simp [clampOrd, h1, h2]
+
+end Clamp
+
+/-! ### positive and finite throughout — for every carrier (ℝ, and any float-like type whose `clamp` is `clampOrd`) -/
+
+section Range
+variable {K : Type} [Add K] [Sub K] [Mul K] [Div K] [NatCast K] [TrOps K] [LE K]
+variable (lo hi delta gamma kappa : K) (t0 : Nat)
+
+/-- one transition keeps the step size and the averaged iterate inside `[lo, hi]`, whatever `exp`, `ln`, `sqrt`, `powf`
+    return (NaN, 0, ∞ …): only the clamp law is used. -/
+theorem eps_in_range_step (hclamp : ∀ e : K, lo ≤ TrOps.clamp lo hi e ∧ TrOps.clamp lo hi e ≤ hi)
+    (st : Adapt K) (a : K) (h : lo ≤ st.epsBar ∧ st.epsBar ≤ hi) :
+    (lo ≤ (adaptStep lo hi delta gamma kappa t0 st a).eps ∧ (adaptStep lo hi delta gamma kappa t0 st a).eps ≤ hi)
+    ∧ (lo ≤ (adaptStep lo hi delta gamma kappa t0 st a).epsBar ∧ (adaptStep lo hi delta gamma kappa t0 st a).epsBar ≤ hi) := by
   by_cases hw : st.m + 1 ≤ st.nDiscard
-  · simp only [adaptStep, hw, if_true, TrOps.exp]
-    exact ⟨Real.exp_pos _, Real.exp_pos _⟩
+  · simp only [adaptStep, hw, if_true]
+    exact ⟨hclamp _, hclamp _⟩
   · simp only [adaptStep, hw, if_false]
     exact ⟨h, h⟩
 
-theorem eps_pos (st : Adapt ℝ) (stats : List ℝ) (h : 0 < st.epsBar) (he : 0 < st.eps) :
-    0 < (stats.foldl (adaptStep delta gamma kappa t0) st).eps ∧ 0 < (stats.foldl (adaptStep delta gamma kappa t0) st).epsBar := by
+/-- **the step size is inside `[min_positive, max]` after every transition of every history** -/
+theorem eps_in_range (hclamp : ∀ e : K, lo ≤ TrOps.clamp lo hi e ∧ TrOps.clamp lo hi e ≤ hi)
+    (st : Adapt K) (stats : List K) (h : lo ≤ st.epsBar ∧ st.epsBar ≤ hi) (he : lo ≤ st.eps ∧ st.eps ≤ hi) :
+    let r := stats.foldl (adaptStep lo hi delta gamma kappa t0) st
+    (lo ≤ r.eps ∧ r.eps ≤ hi) ∧ (lo ≤ r.epsBar ∧ r.epsBar ≤ hi) := by
   induction stats generalizing st with
   | nil => exact ⟨he, h⟩
   | cons a as ih =>
     simp only [List.foldl_cons]
-    have := eps_pos_step delta gamma kappa t0 st a h
+    have := eps_in_range_step lo hi delta gamma kappa t0 hclamp st a h
     exact ih _ this.2 this.1
 
+end Range
+
+variable (lo hi delta gamma kappa : ℝ) (t0 : Nat)
+
+/-- the transition counter advances by one per transition and the warm-up length of the run is not touched. -/
+theorem adaptStep_counters (st : Adapt ℝ) (a : ℝ) :
+    (adaptStep lo hi delta gamma kappa t0 st a).m = st.m + 1 ∧ (adaptStep lo hi delta gamma kappa t0 st a).nDiscard = st.nDiscard
+    ∧ (adaptStep lo hi delta gamma kappa t0 st a).mu = st.mu := by
+  by_cases h : st.m + 1 ≤ st.nDiscard <;> simp [adaptStep, h]
+
+/-- the ℝ instance satisfies the clamp law -/
+theorem real_clamp_law (hlh : lo ≤ hi) (e : ℝ) : lo ≤ TrOps.clamp lo hi e ∧ TrOps.clamp lo hi e ≤ hi :=
+  clampOrd_mem lo hi e le_rfl hlh le_rfl
+
+/-- **positivity**: with `0 < lo ≤ hi` (`lo = T::min_positive_value()`), the step size and the averaged iterate stay in
+    `[lo, hi]`, hence positive and finite, after every transition, for every history of acceptance statistics. -/
+theorem eps_pos (hlo : 0 < lo) (hlh : lo ≤ hi) (st : Adapt ℝ) (stats : List ℝ)
+    (h : lo ≤ st.epsBar ∧ st.epsBar ≤ hi) (he : lo ≤ st.eps ∧ st.eps ≤ hi) :
+    0 < (stats.foldl (adaptStep lo hi delta gamma kappa t0) st).eps ∧ (stats.foldl (adaptStep lo hi delta gamma kappa t0) st).eps ≤ hi
+    ∧ 0 < (stats.foldl (adaptStep lo hi delta gamma kappa t0) st).epsBar := by
+  have := eps_in_range lo hi delta gamma kappa t0 (real_clamp_law lo hi hlh) st stats h he
+  exact ⟨lt_of_lt_of_le hlo this.1.1, this.1.2, lt_of_lt_of_le hlo this.2.1⟩
+
 /-- **frozen after warm-up, one transition**: once `m ≥ n_discard` (i.e. the transition being made is number
-    `m + 1 > n_discard`), the step size becomes the averaged iterate and the averaged iterate does not move. -/
+    `m + 1 > n_discard`), the step size becomes the averaged iterate, and neither the averaged iterate nor `H̄` moves. -/
 theorem eps_frozen_step (st : Adapt ℝ) (a : ℝ) (h : st.nDiscard ≤ st.m) :
-    (adaptStep delta gamma kappa t0 st a).eps = st.epsBar ∧ (adaptStep delta gamma kappa t0 st a).epsBar = st.epsBar := by
+    (adaptStep lo hi delta gamma kappa t0 st a).eps = st.epsBar ∧ (adaptStep lo hi delta gamma kappa t0 st a).epsBar = st.epsBar
+    ∧ (adaptStep lo hi delta gamma kappa t0 st a).hBar = st.hBar := by
   unfold adaptStep
   have : ¬ st.m + 1 ≤ st.nDiscard := by omega
   simp [this]
 
-/-- **frozen for the rest of the run**: for every later transition of the run and arbitrary acceptance statistics. -/
+/-- **frozen for the rest of the run**: for every later transition of the run and arbitrary acceptance statistics; the
+    dual-averaging statistic `H̄` is left exactly as warm-up ended (a later run that resumes adaptation starts from it). -/
 theorem eps_frozen (st : Adapt ℝ) (stats : List ℝ) (h : st.nDiscard ≤ st.m) (hne : stats ≠ []) :
-    (stats.foldl (adaptStep delta gamma kappa t0) st).eps = st.epsBar
-    ∧ (stats.foldl (adaptStep delta gamma kappa t0) st).epsBar = st.epsBar := by
+    (stats.foldl (adaptStep lo hi delta gamma kappa t0) st).eps = st.epsBar
+    ∧ (stats.foldl (adaptStep lo hi delta gamma kappa t0) st).epsBar = st.epsBar
+    ∧ (stats.foldl (adaptStep lo hi delta gamma kappa t0) st).hBar = st.hBar := by
   induction stats generalizing st with
   | nil => exact absurd rfl hne
   | cons a as ih =>
     simp only [List.foldl_cons]
-    obtain ⟨h1, h2⟩ := eps_frozen_step delta gamma kappa t0 st a h
-    obtain ⟨c1, c2, _⟩ := adaptStep_counters delta gamma kappa t0 st a
+    obtain ⟨h1, h2, h3⟩ := eps_frozen_step lo hi delta gamma kappa t0 st a h
+    obtain ⟨c1, c2, _⟩ := adaptStep_counters lo hi delta gamma kappa t0 st a
     by_cases hn : as = []
-    · subst hn; exact ⟨h1, h2⟩
-    · have := ih (adaptStep delta gamma kappa t0 st a) (by rw [c1, c2]; omega) hn
-      rw [h2] at this
+    · subst hn; exact ⟨h1, h2, h3⟩
+    · have := ih (adaptStep lo hi delta gamma kappa t0 st a) (by rw [c1, c2]; omega) hn
+      rw [h2, h3] at this
       exact this
 
 /-- **a later `run` whose warm-up length does not exceed the transitions already made never adapts again**: the step
     size of all its transitions is the averaged iterate the chain entered the run with (the counter persists across calls). -/
 theorem second_run_no_adapt (st : Adapt ℝ) (nDiscard : Nat) (eps0 : ℝ) (stats : List ℝ) (h : nDiscard ≤ st.m) (hne : stats ≠ []) :
-    (runAdapt delta gamma kappa t0 st nDiscard false eps0 stats).eps = st.epsBar
-    ∧ (runAdapt delta gamma kappa t0 st nDiscard false eps0 stats).epsBar = st.epsBar := by
+    (runAdapt lo hi delta gamma kappa t0 st nDiscard false eps0 stats).eps = st.epsBar
+    ∧ (runAdapt lo hi delta gamma kappa t0 st nDiscard false eps0 stats).epsBar = st.epsBar := by
   unfold runAdapt
-  have := eps_frozen delta gamma kappa t0 (initChain st nDiscard false eps0) stats (by simpa [initChain] using h) hne
-  simpa [initChain] using this
+  have := eps_frozen lo hi delta gamma kappa t0 (initChain st nDiscard false eps0) stats (by simpa [initChain] using h) hne
+  simpa [initChain] using ⟨this.1, this.2.1⟩
 
-/-- **Nesterov's averaged deficit**: `(m + t₀)·H̄` grows by exactly `δ - a` with every transition (warm-up or not), … -/
-theorem hbar_step (st : Adapt ℝ) (a : ℝ) :
-    ((st.m + 1 + t0 : Nat) : ℝ) * (adaptStep delta gamma kappa t0 st a).hBar = ((st.m + t0 : Nat) : ℝ) * st.hBar + (delta - a) := by
+/-- **Nesterov's averaged deficit**: during warm-up `(m + t₀)·H̄` grows by exactly `δ - a` with the transition, … -/
+theorem hbar_step (st : Adapt ℝ) (a : ℝ) (hw : st.m + 1 ≤ st.nDiscard) :
+    ((st.m + 1 + t0 : Nat) : ℝ) * (adaptStep lo hi delta gamma kappa t0 st a).hBar = ((st.m + t0 : Nat) : ℝ) * st.hBar + (delta - a) := by
   have hne : ((st.m + 1 + t0 : Nat) : ℝ) ≠ 0 := by positivity
-  have e : (adaptStep delta gamma kappa t0 st a).hBar
+  have e : (adaptStep lo hi delta gamma kappa t0 st a).hBar
       = (1 - 1 / ((st.m + 1 + t0 : Nat) : ℝ)) * st.hBar + 1 / ((st.m + 1 + t0 : Nat) : ℝ) * (delta - a) := by
-    by_cases hw : st.m + 1 ≤ st.nDiscard <;> simp [adaptStep, hw]
+    simp [adaptStep, hw]
   rw [e]
   field_simp
   push_cast
   ring
 
-/-- … so after any history `(m + t₀)·H̄_m = (m₀ + t₀)·H̄_{m₀} + Σ (δ - a_i)`: the closed form of the recurrence. -/
-theorem hbar_closed_form (st : Adapt ℝ) (stats : List ℝ) :
-    let r := stats.foldl (adaptStep delta gamma kappa t0) st
+/-- … so over any stretch of warm-up `(m + t₀)·H̄_m = (m₀ + t₀)·H̄_{m₀} + Σ (δ - a_i)`: the closed form of the recurrence. -/
+theorem hbar_closed_form (st : Adapt ℝ) (stats : List ℝ) (hw : st.m + stats.length ≤ st.nDiscard) :
+    let r := stats.foldl (adaptStep lo hi delta gamma kappa t0) st
     r.m = st.m + stats.length
     ∧ ((r.m + t0 : Nat) : ℝ) * r.hBar = ((st.m + t0 : Nat) : ℝ) * st.hBar + (stats.map fun a => delta - a).sum := by
   induction stats generalizing st with
   | nil => simp
   | cons a as ih =>
-    simp only [List.foldl_cons, List.map_cons, List.sum_cons, List.length_cons]
-    obtain ⟨h1, h2⟩ := ih (adaptStep delta gamma kappa t0 st a)
-    obtain ⟨c1, _, _⟩ := adaptStep_counters delta gamma kappa t0 st a
+    simp only [List.foldl_cons, List.map_cons, List.sum_cons, List.length_cons] at hw ⊢
+    obtain ⟨c1, c2, _⟩ := adaptStep_counters lo hi delta gamma kappa t0 st a
+    obtain ⟨h1, h2⟩ := ih (adaptStep lo hi delta gamma kappa t0 st a) (by rw [c1, c2]; omega)
     refine ⟨by rw [h1, c1]; omega, ?_⟩
-    rw [h2, c1, hbar_step]
+    rw [h2, c1, hbar_step lo hi delta gamma kappa t0 st a (by omega)]
     ring
 
-/-- with acceptance statistics in `[0,1]` and `H̄₀ = 0` at `m = 0`: `H̄_m ∈ [δ - 1, δ]` scaled by `m/(m+t₀)`. -/
-theorem hbar_bounded (st : Adapt ℝ) (stats : List ℝ) (hm : st.m = 0) (hh : st.hBar = 0)
+/-- with acceptance statistics in `[0,1]` and `H̄₀ = 0` at `m = 0`: during warm-up `H̄_m ∈ [δ - 1, δ]` scaled by `m/(m+t₀)`. -/
+theorem hbar_bounded (st : Adapt ℝ) (stats : List ℝ) (hm : st.m = 0) (hh : st.hBar = 0) (hw : stats.length ≤ st.nDiscard)
     (ha : ∀ a ∈ stats, 0 ≤ a ∧ a ≤ 1) :
-    let r := stats.foldl (adaptStep delta gamma kappa t0) st
+    let r := stats.foldl (adaptStep lo hi delta gamma kappa t0) st
     (stats.length : ℝ) * (delta - 1) ≤ ((r.m + t0 : Nat) : ℝ) * r.hBar
     ∧ ((r.m + t0 : Nat) : ℝ) * r.hBar ≤ (stats.length : ℝ) * delta := by
-  obtain ⟨-, h2⟩ := hbar_closed_form delta gamma kappa t0 st stats
+  obtain ⟨-, h2⟩ := hbar_closed_form lo hi delta gamma kappa t0 st stats (by omega)
   simp only at h2 ⊢
   rw [h2, hh, mul_zero, zero_add]
-  clear h2
+  clear h2 hw
   induction stats with
   | nil => simp
   | cons a as ih =>
@@ -121,13 +170,24 @@ theorem hbar_bounded (st : Adapt ℝ) (stats : List ℝ) (hm : st.m = 0) (hh : s
     push_cast
     constructor <;> nlinarith [this.1, this.2, ha0.1, ha0.2]
 
-/-- **dual averaging in warm-up**: `ln ε_m = μ - (√m/γ)·H̄_m`, and `ln ε̄_m = (1 - m^{-κ})·ln ε̄_{m-1} + m^{-κ}·ln ε_m`. -/
-theorem log_eps_dual_avg (st : Adapt ℝ) (a : ℝ) (h : st.m + 1 ≤ st.nDiscard) :
-    let r := adaptStep delta gamma kappa t0 st a
+/-- **dual averaging in warm-up**: as long as the two exponentials stay inside `[lo, hi]` (no underflow or overflow in `T`),
+    `ln ε_m = μ - (√m/γ)·H̄_m`, and `ln ε̄_m = (1 - m^{-κ})·ln ε̄_{m-1} + m^{-κ}·ln ε_m`. -/
+theorem log_eps_dual_avg (st : Adapt ℝ) (a : ℝ) (h : st.m + 1 ≤ st.nDiscard)
+    (hr1 : let e := Real.exp (st.mu - Real.sqrt ((st.m + 1 : Nat) : ℝ) / gamma * (adaptStep lo hi delta gamma kappa t0 st a).hBar)
+           lo ≤ e ∧ e ≤ hi)
+    (hr2 : let e := Real.exp ((1 - Real.rpow ((st.m + 1 : Nat) : ℝ) (-kappa)) * Real.log st.epsBar
+              + Real.rpow ((st.m + 1 : Nat) : ℝ) (-kappa)
+                * (st.mu - Real.sqrt ((st.m + 1 : Nat) : ℝ) / gamma * (adaptStep lo hi delta gamma kappa t0 st a).hBar))
+           lo ≤ e ∧ e ≤ hi) :
+    let r := adaptStep lo hi delta gamma kappa t0 st a
     Real.log r.eps = st.mu - Real.sqrt ((st.m + 1 : Nat) : ℝ) / gamma * r.hBar
     ∧ Real.log r.epsBar = (1 - Real.rpow ((st.m + 1 : Nat) : ℝ) (-kappa)) * Real.log st.epsBar
         + Real.rpow ((st.m + 1 : Nat) : ℝ) (-kappa) * Real.log r.eps := by
-  simp only [adaptStep, h, if_true, TrOps.exp, TrOps.ln, TrOps.sqrt, TrOps.npow, Real.log_exp, Nat.cast_one]
+  simp only [adaptStep, h, if_true, TrOps.exp, TrOps.ln, TrOps.sqrt, TrOps.npow, TrOps.clamp, Nat.cast_one] at hr1 hr2 ⊢
+  rw [clampOrd_of_mem _ _ _ hr1.1 hr1.2]
+  simp only [Real.log_exp]
+  rw [clampOrd_of_mem _ _ _ hr2.1 hr2.2]
+  simp only [Real.log_exp]
   constructor <;> trivial
 
 /-- `init_chain` keeps the transition counter, the averaged iterate and `H̄`, and sets `μ = ln(10·ε)`. -/
@@ -137,10 +197,12 @@ theorem initChain_spec (st : Adapt ℝ) (nd : Nat) (first : Bool) (eps0 : ℝ) :
     ∧ (initChain st nd first eps0).mu = Real.log (10 * (initChain st nd first eps0).eps) := by
   simp [initChain, TrOps.ln]
 
-/-! ### non-vacuity: the third transition of a run with `n_discard = 2` is frozen; a warm-up transition is positive -/
-example : (adaptStep (0.8 : ℝ) 0.05 0.75 10 ⟨2, 2, 3, 1 / 2, 1 / 10, 1⟩ 0.2).eps = 1 / 2 :=
-  (eps_frozen_step 0.8 0.05 0.75 10 ⟨2, 2, 3, 1 / 2, 1 / 10, 1⟩ 0.2 (by norm_num)).1
-example : 0 < (adaptStep (0.8 : ℝ) 0.05 0.75 10 ⟨0, 2, 3, 1 / 2, 0, 1⟩ 0.2).eps :=
-  (eps_pos_step 0.8 0.05 0.75 10 ⟨0, 2, 3, 1 / 2, 0, 1⟩ 0.2 (by norm_num)).1
+/-! ### non-vacuity: the third transition of a run with `n_discard = 2` is frozen; a warm-up transition stays in range;
+    a collapsing exponential is caught by the clamp -/
+example : (adaptStep (1 / 1000 : ℝ) 1000 0.8 0.05 0.75 10 ⟨2, 2, 3, 1 / 2, 1 / 10, 1⟩ 0.2).eps = 1 / 2 :=
+  (eps_frozen_step _ _ 0.8 0.05 0.75 10 ⟨2, 2, 3, 1 / 2, 1 / 10, 1⟩ 0.2 (by norm_num)).1
+example : 0 < (adaptStep (1 / 1000 : ℝ) 1000 0.8 0.05 0.75 10 ⟨0, 2, 3, 1 / 2, 0, 1⟩ 0.2).eps :=
+  (eps_pos (1 / 1000) 1000 0.8 0.05 0.75 10 (by norm_num) (by norm_num) ⟨0, 2, 3, 1 / 2, 0, 1⟩ [0.2] (by norm_num) (by norm_num)).1
+example : clampOrd (1 / 1000 : ℝ) 1000 0 = 1 / 1000 := by norm_num [clampOrd]
 
 end MiniMcmcVerif.DualAvg
